@@ -756,7 +756,7 @@ func c09Veneers(d *Defs, r *rng, pct int) (string, []string) {
 					opts = append(opts, fmt.Sprintf("  - struct_fields_as_arguments: { by_name: %s }", sel))
 					tags = append(tags, "struct_fields_as_arguments")
 				}
-			case (f.Ty.Kind == SOneOfScalars || f.Ty.Kind == SOneOfStructs) && !f.Nullable:
+			case (f.Ty.Kind == SOneOfScalars || f.Ty.Kind == SOneOfStructs) && !f.Nullable && f.Required:
 				opts = append(opts, fmt.Sprintf("  - disjunction_as_options: { by_name: %s }", sel))
 				tags = append(tags, "disjunction_as_options")
 			case (f.Ty.Kind == SString || f.Ty.Kind == SInt) && !isBranch && !promoted[def.Name] && r.chance(50):
